@@ -509,6 +509,13 @@ def Ev.inCrashWindow : Ev → Bool
   | .newmsg _ _ _ => true
   | _ => false
 
+/-- what a crash did to the files -/
+def Ev.isDamage : Ev → Bool
+  | .crashMarks _ _ _ => true
+  | .crashBounce _ _ => true
+  | .crashTodoFiles _ => true
+  | _ => false
+
 /-- the crash window is closed -/
 def St.calm (s : St) : St := { s with crashed := false, cut := [] }
 
